@@ -1,7 +1,7 @@
 (* C19 — Division conserves molecules and volume; lineage records are consistent (splitters). *)
 From Coq Require Import ZArith Reals List Bool Arith.
 From BS Require Import Base.Arith Model.Queue Model.Term Model.Propensity Model.Interface Model.Rules Model.Random Model.SSA Model.Splitters Model.Lineage Model.Worklist
-                       Proofs.SplitProofs Proofs.SSAProofs Proofs.LineageProofs Proofs.LineageIdle Proofs.WorklistProofs.
+                       Proofs.SplitProofs Proofs.SSAProofs Proofs.LineageProofs Proofs.LineageIdle Proofs.WorklistProofs Proofs.WorklistProvenance.
 Import ListNotations.
 Local Open Scope R_scope.
 
@@ -93,6 +93,45 @@ Theorem C19_lineage_links_mutual :
   parent_ok (w_lineage w) /\ daughters_ok (w_lineage w).
 Proof. exact @lineage_links_mutual. Qed.
 
+(* "Every daughter starts at its mother's division time from exactly such a partition of the mother's last state" -- the whole
+   lineage, any arithmetic, stream, model, fuel, number of initial cells: every recorded cell that names a mother p was produced by
+   the single-cell simulation (on the part of the grid from the mother's last reported time on) of one of the two cells which the
+   splitter selected by the mother's division event made of the mother's get_final_cell_state (last reported row, volume, time). *)
+Theorem C19_daughters_born_from_mother :
+  forall F (A : Arith F) pi2 eps9 eps7 eps12 cfuel fuel (l : lin F) sps ts cells u pos w,
+  simulate_lineage A pi2 eps9 eps7 eps12 cfuel fuel l sps ts cells u pos = Done w ->
+  forall j s p, nth_error (w_lineage w) j = Some s -> sz_parent s = Some p ->
+  exists m tts0 st0 sp upos upos' d st,
+    nth_error (w_lineage w) p = Some m /\ data_of m tts0 st0 /\
+    let c := final_cell A tts0 st0 in
+    (0 <= cs_divided c)%Z /\ nth_error sps (Z.to_nat (cs_divided c)) = Some sp /\
+    (d = fst (daughter_cells A c sp u upos) \/ d = snd (daughter_cells A c sp u upos)) /\
+    cell_simulate A pi2 eps9 eps7 fuel l (truncate_lt A ts (cs_time c)) d u upos' = Done st /\
+    data_of s (truncate_lt A ts (cs_time c)) st.
+Proof. exact @lineage_daughters_born. Qed.
+
+(* Reals: the same with what the partition guarantees spelled out -- both daughters start (time and birth time) at the mother's
+   last reported time; perfect and binomial species sum to the mother's last counts, the others are copied; the volumes sum to
+   the mother's last volume unless the splitter duplicates it. *)
+Theorem C19_lineage_division_conserves :
+  forall pi2 eps9 eps7 eps12 cfuel fuel (l : lin R) sps ts cells u pos w,
+  simulate_lineage ArithR pi2 eps9 eps7 eps12 cfuel fuel l sps ts cells u pos = Done w ->
+  forall j s p, nth_error (w_lineage w) j = Some s -> sz_parent s = Some p ->
+  exists m tts0 st0 sp upos d e,
+    nth_error (w_lineage w) p = Some m /\ data_of m tts0 st0 /\
+    let c := final_cell ArithR tts0 st0 in
+    (0 <= cs_divided c)%Z /\ nth_error sps (Z.to_nat (cs_divided c)) = Some sp /\
+    (d, e) = daughter_cells ArithR c sp u upos /\
+    cs_time d = cs_time c /\ cs_time e = cs_time c /\ cs_t0 d = cs_time c /\ cs_t0 e = cs_time c /\
+    (NoDup (sp_perfect sp ++ sp_binomial sp) -> (forall i, In i (sp_perfect sp ++ sp_binomial sp) -> (i < length (cs_x c))%nat) ->
+       (forall i, In i (sp_perfect sp ++ sp_binomial sp) -> gR (cs_x d) i + gR (cs_x e) i = gR (cs_x c) i) /\
+       (forall i, (i < length (cs_x c))%nat -> ~ In i (sp_perfect sp ++ sp_binomial sp) -> gR (cs_x d) i = gR (cs_x c) i /\ gR (cs_x e) i = gR (cs_x c) i) /\
+       (if Nat.eqb (sp_vmode sp) 1 then cs_V d = cs_V c /\ cs_V e = cs_V c else cs_V d + cs_V e = cs_V c)) /\
+    exists st upos', (cell_simulate ArithR pi2 eps9 eps7 fuel l (truncate_lt ArithR ts (cs_time c)) d u upos' = Done st \/
+                      cell_simulate ArithR pi2 eps9 eps7 fuel l (truncate_lt ArithR ts (cs_time c)) e u upos' = Done st) /\
+                     data_of s (truncate_lt ArithR ts (cs_time c)) st.
+Proof. exact lineage_division_conserves. Qed.
+
 (* Not mechanised (C19_partial): that a Bernoulli sum has the Binomial(n,p) law; custom partition functions and custom rule classes -- decided by the harness on simulated lineages. *)
 
 Print Assumptions C19_general_splitter.
@@ -104,3 +143,5 @@ Print Assumptions C19_cell_rows_were_simulated.
 Print Assumptions C19_cell_rows_are_paths.
 Print Assumptions C19_idle_cell_never_fires.
 Print Assumptions C19_lineage_links_mutual.
+Print Assumptions C19_daughters_born_from_mother.
+Print Assumptions C19_lineage_division_conserves.
